@@ -137,6 +137,10 @@ def check(an, rep, tier):
             'read from and the start of the sweep must all be the last core '
             '(d-1), sweeping down to core 1',
             line=fn.node.lineno, file=mod.path)
+    from .. import rules_proto as _RP
+    _callers = {f.qualname for f in prog.all_functions()
+                if f.module.name in ('transformation', 'act_many', 'svd')}
+    _RP.check_param_forwarding(prog, rep, callers=_callers)
     rep.floor('O-sweep', 4, 'sweep typestates')
     rep.floor('O-gram', 3, 'selectors')
     rep.floor('U-cmp', 2, 'threshold comparisons')
